@@ -30,11 +30,13 @@ func NewStubTable() *StubTable {
 			"github.com/sanity-io/litter":         true,
 			"github.com/projecteru2/core/metrics": true,
 			"github.com/getsentry/sentry-go":      true,
+			"github.com/alphadose/haxmap":         true,
 		},
 		ZeroFns: map[string]bool{},
 		Native:  map[string]func(i *interpreter, caller *frame, fn *ssa.Function, args []value) value{},
 	}
 	installDataStubs(t)
+	installAtomicStubs(t)
 	t.Native["sort.Slice"] = func(i *interpreter, caller *frame, fn *ssa.Function, args []value) value {
 		return sortSlice(i, caller, args)
 	}
@@ -191,6 +193,12 @@ func (ex *Explorer) intrinsic(caller *frame, name string, args []value) (value, 
 		if _, ok := ex.declKind[nm]; ok {
 			panic(pathAbort{"harness", "input declared twice: " + nm})
 		}
+		if ex.S.FloatMode == "ieee" {
+			// integers of IEEE harnesses live in the bit-vector theory
+			v := ex.declare(nm, symv{k: kInt, bk: bk, bv: "?"})
+			ex.assertTerm("(and (bvsge " + v.bv + " " + bvLit(big.NewInt(asInt64(args[1]))) + ") (bvsle " + v.bv + " " + bvLit(big.NewInt(asInt64(args[2]))) + "))")
+			return v, true
+		}
 		v := ex.declare(nm, symv{k: kInt, bk: bk})
 		_, lo, _ := concIntLit(args[1])
 		_, hi, _ := concIntLit(args[2])
@@ -242,8 +250,10 @@ func (ex *Explorer) intrinsic(caller *frame, name string, args []value) (value, 
 			return nil, true
 		}
 		if c, ok := args[1].(symv); ok {
+			ex.asserted = append(ex.asserted, struct{ label, term string }{label, c.e})
 			ex.reportFailing(label, "assert", "", "(not "+c.e+")")
 		} else if !args[1].(bool) {
+			ex.asserted = append(ex.asserted, struct{ label, term string }{label, "false"})
 			ex.reportFailing(label, "assert", "condition concretely false", "true")
 		} else {
 			ex.discharged(label)
